@@ -91,6 +91,8 @@ func wrapperDrv(raw json.RawMessage, resp *drv.Response) error {
 		return c03Run(req, resp)
 	case "c04":
 		return c04Run(req, resp)
+	case "two":
+		return twoProofs(req, resp)
 	case "noncanon":
 		return noncanonRun(req, resp)
 	case "canonset":
@@ -344,6 +346,84 @@ func c04Run(req wrapReq, resp *drv.Response) error {
 				map[string]any{"instance": req.Instance, "k": req.K, "c04": c})
 		}
 		resp.Sample(map[string]any{"kind": c.Kind, "path": c.Path, "op": c.Op, "selected_by_a_query": sel, "outcome": out})
+	}
+	return nil
+}
+
+// twoProofs: one verifier chip verifies two proofs of the same inner circuit; the first is honest, the second carries one changed leaf
+// (value + p for req.Ks = ["noncanon"], value + 1 otherwise).  Honest pair: accept; any changed second proof: not accepted.
+func twoProofs(req wrapReq, resp *drv.Response) error {
+	rng := drv.Rng(int64(1700 + req.Shard))
+	pair := strings.Split(req.Instance, "+")
+	if len(pair) != 2 {
+		return fmt.Errorf("instance must be a+b")
+	}
+	a := data.Load(data.ByName(pair[0]), req.K)
+	noncanon := len(req.Ks) > 0 && req.Ks[0] == "noncanon"
+	run := func(b *data.Loaded) (string, error) {
+		err := hc.RunVerifierTwo(&engine.Config{Mode: engine.Native, Permissive: true}, a, b)
+		return hc.Outcome(err), err
+	}
+	out, err := run(data.Load(data.ByName(pair[1]), req.K))
+	resp.Count("two/honest/"+req.Instance, false)
+	if out != "accept" {
+		resp.Violate("c02/two-proofs/honest-rejected", fmt.Sprintf("%s: two valid proofs verified with one chip: %s (%s)", req.Instance, out, firstLine(err)), nil)
+		return nil
+	}
+	// one leaf per class first, then seeded ones
+	b0 := data.Load(data.ByName(pair[1]), req.K)
+	var paths []string
+	seen := map[string]bool{}
+	var rest []string
+	for _, lf := range walkPrefixed("PWPI.", &b0.PWPI) {
+		if strings.HasPrefix(lf.Path, "PWPI.PublicInputs") && noncanon {
+			continue
+		}
+		if noncanon && !lf.GL {
+			continue
+		}
+		cls := classOf(lf.Path)
+		if !seen[cls] {
+			seen[cls] = true
+			paths = append(paths, lf.Path)
+		} else {
+			rest = append(rest, lf.Path)
+		}
+	}
+	for i := 0; i < req.Stride && len(rest) > 0; i++ {
+		paths = append(paths, rest[rng.Intn(len(rest))])
+	}
+	for _, path := range paths {
+		b := data.Load(data.ByName(pair[1]), req.K)
+		for _, lf := range walkPrefixed("PWPI.", &b.PWPI) {
+			if lf.Path != path {
+				continue
+			}
+			old := lf.Get()
+			var nv *big.Int
+			if noncanon {
+				nv = new(big.Int).Add(old, bigP)
+			} else if lf.GL {
+				nv = new(big.Int).Mod(new(big.Int).Add(old, one), bigP)
+			} else {
+				nv = new(big.Int).Mod(new(big.Int).Add(old, one), bigR)
+			}
+			lf.Set(nv)
+		}
+		out, _ := run(b)
+		resp.Count(fmt.Sprintf("two/%s/%s/%v", req.Instance, path, noncanon), false)
+		if out == "accept" {
+			what := "changed by +1"
+			if noncanon {
+				what = "given as value + p"
+			}
+			resp.Violate(fmt.Sprintf("%s/second-proof/accept cls=%s", map[bool]string{true: "c17", false: "c01"}[noncanon], classOf(path)),
+				fmt.Sprintf("%s k=%d: one verifier chip verifies the first proof and then the second with %s %s: accepted (alone, the changed proof is rejected)", req.Instance, req.K, path, what),
+				map[string]any{"instance": req.Instance, "path": path, "noncanon": noncanon})
+		}
+		if len(resp.Samples) < 3 {
+			resp.Sample(map[string]any{"pair": req.Instance, "changed_leaf_of_second_proof": path, "noncanonical": noncanon, "outcome": out})
+		}
 	}
 	return nil
 }
